@@ -635,6 +635,929 @@ theorem getitem_spec {f : Frame Φ β} {n : Nat} {ix : Index} {ps : List Nat}
     obtain ⟨_, ht, hc, hg, _⟩ := hfeat φ φ' hw hl h2
     exact ⟨φ', h1, h2, hg, ht, hc⟩
 
+/-- a selection raises exactly when Python's list indexing raises (frames that hold at least one
+    tensor; a frame without features and target has nothing to index). -/
+theorem getitem_none_iff {f : Frame Φ β} {n : Nat} {ix : Index}
+    (hwf : f.WF spec n) (hne : f.feats ≠ [] ∨ f.y ≠ none) :
+    f.getitem ops ix = none ↔ ix.positions n = none := by
+  constructor
+  · intro h
+    cases hps : ix.positions n with
+    | none => rfl
+    | some ps =>
+      obtain ⟨f', hf', _⟩ := getitem_spec spec hwf hps
+      rw [h] at hf'; cases hf'
+  · intro hps
+    have hps' : (intToList ix).positions n = none := by rw [positions_intToList]; exact hps
+    cases hf : f.feats with
+    | cons a rest =>
+      obtain ⟨s, φ⟩ := a
+      have hm : (s, φ) ∈ f.feats := by rw [hf]; exact List.mem_cons_self ..
+      obtain ⟨hw, hl, _⟩ := hwf.feat_ok s φ hm
+      have : ops.select φ (intToList ix) = none := (spec.select_none φ _ hw).mpr (by rw [hl]; exact hps')
+      unfold Frame.getitem
+      simp [hf, selectFeats_none_of_head this]
+    | nil =>
+      rcases hne with hne | hne
+      · exact absurd hf hne
+      · cases hy : f.y with
+        | none => exact absurd hy hne
+        | some y =>
+          unfold Frame.getitem
+          simp [hf, Frame.selectFeats, hy, selectList, hwf.y_ok y hy, hps']
+
+theorem chainPositions_inRange {n : Nat} {ixs : List Index} {qs : List Nat}
+    (h : chainPositions n ixs = some qs) : InRange n qs := by
+  induction ixs generalizing n qs with
+  | nil => simp [chainPositions] at h; subst h; exact fun p hp => List.mem_range.mp hp
+  | cons ix rest ih =>
+    simp only [chainPositions] at h
+    cases hps : ix.positions n with
+    | none => simp [hps] at h
+    | some ps =>
+      cases hq : chainPositions ps.length rest with
+      | none => simp [hps, hq] at h
+      | some qs' =>
+        simp [hps, hq] at h; subst h
+        exact pick_inRange ps qs' n (positions_inRange hps)
+
+/-- a chain of selections = the list selections composed, for every chain length. -/
+theorem getitemChain_spec {f : Frame Φ β} {n : Nat} {ixs : List Index} {qs : List Nat}
+    (hwf : f.WF spec n) (h : chainPositions n ixs = some qs) :
+    ∃ f', f.getitemChain ops ixs = some f' ∧ f'.WF spec qs.length ∧ f'.names = f.names ∧
+      keys f'.feats = keys f.feats ∧
+      (∀ s φ, assoc s f.feats = some φ → ∃ φ', assoc s f'.feats = some φ' ∧
+        spec.grid φ' = Grid.pick (spec.grid φ) qs ∧ spec.tag φ' = spec.tag φ ∧
+        spec.colMeta φ' = spec.colMeta φ) ∧
+      f'.y = f.y.map (Grid.pick · qs) := by
+  induction ixs generalizing f n qs with
+  | nil =>
+    simp [chainPositions] at h; subst h
+    refine ⟨f, rfl, by simpa using hwf, rfl, rfl, ?_, ?_⟩
+    · intro s φ hs
+      obtain ⟨hw, hl, _⟩ := hwf.feat_ok s φ (assoc_mem hs)
+      exact ⟨φ, hs, (pick_range_of_length _ n (by rw [spec.grid_len φ hw, hl])).symm, rfl, rfl⟩
+    · cases hy : f.y with
+      | none => rfl
+      | some y => simp [pick_range_of_length y n (hwf.y_ok y hy)]
+  | cons ix rest ih =>
+    simp only [chainPositions] at h
+    cases hps : ix.positions n with
+    | none => simp [hps] at h
+    | some ps =>
+      cases hq : chainPositions ps.length rest with
+      | none => simp [hps, hq] at h
+      | some qs' =>
+        simp [hps, hq] at h; subst h
+        obtain ⟨f1, hf1, hwf1, hn1, hk1, hg1, hy1⟩ := getitem_spec spec hwf hps
+        obtain ⟨f', hf', hwf', hn', hk', hg', hy'⟩ := ih hwf1 hq
+        have hin : InRange n ps := positions_inRange hps
+        have hin' : InRange ps.length qs' := chainPositions_inRange hq
+        have hlen : (Grid.pick ps qs').length = qs'.length := pick_length ps qs' hin'
+        refine ⟨f', by simp [Frame.getitemChain, hf1, hf'], by rw [hlen]; exact hwf', by rw [hn', hn1],
+          by rw [hk', hk1], ?_, ?_⟩
+        · intro s φ hs
+          obtain ⟨φ1, hs1, _, hgφ1, ht1, hc1⟩ := hg1 s φ hs
+          obtain ⟨φ', hs', hgφ', ht', hc'⟩ := hg' s φ1 hs1
+          obtain ⟨hw, hl, _⟩ := hwf.feat_ok s φ (assoc_mem hs)
+          refine ⟨φ', hs', ?_, by rw [ht', ht1], by rw [hc', hc1]⟩
+          rw [hgφ', hgφ1, pick_pick]
+          rw [spec.grid_len φ hw, hl]; exact hin
+        · rw [hy', hy1]
+          cases hy : f.y with
+          | none => rfl
+          | some y =>
+            simp only [Option.map_some]
+            rw [pick_pick]; rw [hwf.y_ok y hy]; exact hin
+
 end getitem
+
+/-! ### column lookup (`_col_to_stype_idx`, `get_col_feat`) -/
+
+theorem mem_colTable {names : List (String × List String)} {name s : String} {idx : Nat} :
+    (name, (s, idx)) ∈ Frame.colTable names ↔ ∃ ns, (s, ns) ∈ names ∧ ns[idx]? = some name := by
+  unfold Frame.colTable
+  rw [List.mem_flatMap]
+  constructor
+  · rintro ⟨sn, hsn, hm⟩
+    rw [List.mem_map] at hm
+    obtain ⟨ci, hci, he⟩ := hm
+    rw [List.mem_zipIdx_iff_getElem?] at hci
+    cases he
+    exact ⟨sn.2, hsn, hci⟩
+  · rintro ⟨ns, hm, hi⟩
+    refine ⟨(s, ns), hm, ?_⟩
+    rw [List.mem_map]
+    exact ⟨(name, idx), List.mem_zipIdx_iff_getElem?.mpr hi, rfl⟩
+
+theorem keys_colTable (names : List (String × List String)) : keys (Frame.colTable names) = allNames names := by
+  induction names with
+  | nil => rfl
+  | cons sn rest ih =>
+    simp only [Frame.colTable, allNames, keys, List.flatMap_cons, List.map_append] at ih ⊢
+    rw [ih]
+    congr 1
+    rw [List.map_map]
+    have : (Prod.fst ∘ fun ci : String × Nat => (ci.1, (sn.1, ci.2))) = Prod.fst := by
+      funext ci; rfl
+    rw [this, List.zipIdx_map_fst]
+
+theorem keys_reverse (d : List (String × γ)) : keys d.reverse = (keys d).reverse := by
+  simp [keys]
+
+theorem nodup_reverse_iff (l : List α) : l.reverse.Nodup ↔ l.Nodup :=
+  (List.reverse_perm l).nodup_iff
+
+/-- whatever `_col_to_stype_idx` answers is a position of that name in the name table. -/
+theorem lookupLast_sound {names : List (String × List String)} {name s : String} {idx : Nat}
+    (h : Frame.lookupLast name (Frame.colTable names) = some (s, idx)) :
+    ∃ ns, (s, ns) ∈ names ∧ ns[idx]? = some name := by
+  have := assoc_mem h
+  rw [List.mem_reverse] at this
+  exact mem_colTable.mp this
+
+/-- for globally distinct column names the table answers exactly the position of the name. -/
+theorem lookupLast_complete {names : List (String × List String)} {name s : String} {idx : Nat} {ns : List String}
+    (hd : (allNames names).Nodup) (hm : (s, ns) ∈ names) (hi : ns[idx]? = some name) :
+    Frame.lookupLast name (Frame.colTable names) = some (s, idx) := by
+  unfold Frame.lookupLast
+  apply assoc_of_mem
+  · rw [keys_reverse, nodup_reverse_iff, keys_colTable]; exact hd
+  · rw [List.mem_reverse]; exact mem_colTable.mpr ⟨ns, hm, hi⟩
+
+section lookup
+variable {Φ β κ τ ω : Type} {ops : FeatOps Φ} (spec : FeatSpec ops κ τ ω)
+
+/-- `get_col_feat` of a well-formed frame: whenever it answers `(c, s)` for `name`, then `name` is
+    the `idx`-th name of group `s` and `c` is column `idx` of that group's feature. -/
+theorem getColFeat_sound {f : Frame Φ β} {n : Nat} {name s : String} {c : Φ}
+    (hwf : f.WF spec n) (h : f.getColFeat ops name = some (c, s)) :
+    ∃ ns idx φ, assoc s f.names = some ns ∧ ns[idx]? = some name ∧ assoc s f.feats = some φ ∧
+      ops.col φ idx = some c ∧ spec.wf c ∧ spec.tag c = spec.tag φ ∧
+      spec.colMeta c = Grid.pick (spec.colMeta φ) [idx] ∧
+      spec.grid c = (spec.grid φ).map fun r => Grid.pick r [idx] := by
+  unfold Frame.getColFeat at h
+  cases hl : Frame.lookupLast name (Frame.colTable f.names) with
+  | none => simp [hl] at h
+  | some si =>
+    obtain ⟨s', idx⟩ := si
+    simp only [hl] at h
+    cases hφ : assoc s' f.feats with
+    | none => simp [hφ] at h
+    | some φ =>
+      simp only [hφ] at h
+      cases hc : ops.col φ idx with
+      | none => simp [hc] at h
+      | some c0 =>
+        simp [hc] at h
+        obtain ⟨h1, h2⟩ := h
+        subst h1; subst h2
+        obtain ⟨ns, hm, hi⟩ := lookupLast_sound hl
+        have hns : assoc s' f.names = some ns := assoc_of_mem hwf.nameKeys hm
+        obtain ⟨hw, _, ns', hns', hlen, _⟩ := hwf.feat_ok s' φ (assoc_mem hφ)
+        rw [hns] at hns'; cases hns'
+        have hidx : idx < (spec.colMeta φ).length := by
+          rw [← hlen]
+          obtain ⟨hlt, _⟩ := List.getElem?_eq_some_iff.mp hi
+          exact hlt
+        obtain ⟨c1, hc1, hw1, ht1, hm1, hg1⟩ := spec.col_spec φ idx hw hidx
+        rw [hc] at hc1; cases hc1
+        exact ⟨ns, idx, φ, hns, hi, hφ, hc, hw1, ht1, hm1, hg1⟩
+
+/-- ... and for globally distinct names it answers for every column of every group. -/
+theorem getColFeat_complete {f : Frame Φ β} {n : Nat} {name s : String} {idx : Nat} {ns : List String} {φ : Φ}
+    (hwf : f.WF spec n) (hd : (allNames f.names).Nodup)
+    (hns : assoc s f.names = some ns) (hi : ns[idx]? = some name) (hφ : assoc s f.feats = some φ) :
+    ∃ c, f.getColFeat ops name = some (c, s) ∧ ops.col φ idx = some c := by
+  have hl := lookupLast_complete hd (assoc_mem hns) hi
+  obtain ⟨hw, _, ns', hns', hlen, _⟩ := hwf.feat_ok s φ (assoc_mem hφ)
+  rw [hns] at hns'; cases hns'
+  have hidx : idx < (spec.colMeta φ).length := by
+    rw [← hlen]
+    obtain ⟨hlt, _⟩ := List.getElem?_eq_some_iff.mp hi
+    exact hlt
+  obtain ⟨c, hc, _⟩ := spec.col_spec φ idx hw hidx
+  exact ⟨c, by simp [Frame.getColFeat, hl, hφ, hc], hc⟩
+
+end lookup
+
+/-! ### Python dict equality -/
+
+theorem subset_of_nodup_of_length_eq {l₁ l₂ : List String} (h₁ : l₁.Nodup) (h₂ : l₂.Nodup)
+    (hsub : l₁ ⊆ l₂) (hlen : l₁.length = l₂.length) : l₂ ⊆ l₁ := by
+  induction l₁ generalizing l₂ with
+  | nil =>
+    cases l₂ with
+    | nil => exact fun _ h => h
+    | cons b t => simp at hlen
+  | cons a t ih =>
+    rw [List.nodup_cons] at h₁
+    have ha : a ∈ l₂ := hsub (List.mem_cons_self ..)
+    have htsub : t ⊆ l₂.erase a := by
+      intro x hx
+      have hxa : x ≠ a := fun h => h₁.1 (h ▸ hx)
+      exact (List.mem_erase_of_ne hxa).2 (hsub (List.mem_cons_of_mem _ hx))
+    have hlen' : t.length = (l₂.erase a).length := by
+      rw [List.length_erase_of_mem ha]; simp at hlen; omega
+    have := ih h₁.2 (h₂.erase a) htsub hlen'
+    intro x hx
+    by_cases hxa : x = a
+    · subst hxa; exact List.mem_cons_self ..
+    · exact List.mem_cons_of_mem _ (this ((List.mem_erase_of_ne hxa).2 hx))
+
+theorem keys_length (d : List (String × β)) : (keys d).length = d.length := by simp [keys]
+
+/-- `d1 == d2` on dicts is extensional equality of the key -> value maps. -/
+theorem dictEq_iff [BEq β] [LawfulBEq β] {a b : List (String × β)} (ha : (keys a).Nodup) (hb : (keys b).Nodup) :
+    dictEq a b = true ↔ ∀ k, assoc k a = assoc k b := by
+  unfold dictEq
+  rw [Bool.and_eq_true, List.all_eq_true]
+  constructor
+  · rintro ⟨hlen, hall⟩ k
+    have hlen : a.length = b.length := by simpa using hlen
+    have hsub : keys a ⊆ keys b := by
+      intro k hk
+      obtain ⟨kv, hkv, rfl⟩ := List.mem_map.mp hk
+      have := hall kv hkv
+      simp at this
+      exact assoc_isSome_iff.mp ⟨_, this⟩
+    have hsub' := subset_of_nodup_of_length_eq ha hb hsub (by rw [keys_length, keys_length, hlen])
+    cases hka : assoc k a with
+    | some v =>
+      have := hall (k, v) (assoc_mem hka)
+      simp at this
+      exact this.symm
+    | none =>
+      have hk : k ∉ keys a := assoc_none_iff.mp hka
+      exact (assoc_none_iff.mpr fun h => hk (hsub' h)).symm
+  · intro h
+    have hsub : keys a ⊆ keys b := by
+      intro k hk
+      obtain ⟨v, hv⟩ := assoc_isSome_iff.mpr hk
+      exact assoc_isSome_iff.mp ⟨v, by rw [← h k]; exact hv⟩
+    have hsub' : keys b ⊆ keys a := by
+      intro k hk
+      obtain ⟨v, hv⟩ := assoc_isSome_iff.mpr hk
+      exact assoc_isSome_iff.mp ⟨v, by rw [h k]; exact hv⟩
+    constructor
+    · have h1 := ha.length_le_of_subset hsub
+      have h2 := hb.length_le_of_subset hsub'
+      rw [keys_length, keys_length] at h1 h2
+      simp; omega
+    · intro kv hkv
+      have := assoc_of_mem ha (show (kv.1, kv.2) ∈ a from hkv)
+      rw [h kv.1] at this
+      simp [this]
+
+theorem dictEq_refl [BEq β] [LawfulBEq β] {a : List (String × β)} (ha : (keys a).Nodup) : dictEq a a = true :=
+  (dictEq_iff ha ha).mpr fun _ => rfl
+
+/-! ### `__eq__` -/
+
+section eq
+variable {Φ β κ τ ω : Type} {ops : FeatOps Φ} (spec : FeatSpec ops κ τ ω)
+
+/-- the per-feature part of `__eq__`, stated on the specification. -/
+def FeatClose (φ ψ : Φ) : Prop :=
+  spec.tag φ = spec.tag ψ ∧ spec.colMeta φ = spec.colMeta ψ ∧
+    All2 (All2 spec.cellClose) (spec.grid φ) (spec.grid ψ)
+
+/-- the target part of `__eq__` (`torch.allclose(other.y, self.y)`). -/
+def TargetClose (closeY : β → β → Bool) (ya yb : Option (List β)) : Prop :=
+  match ya, yb with
+  | some ya, some yb => All2 (fun u v => closeY u v = true) yb ya
+  | none, none => True
+  | _, _ => False
+
+theorem eq_iff_spec (closeY : β → β → Bool) {a b : Frame Φ β} {na nb : Nat}
+    (ha : a.WF spec na) (hb : b.WF spec nb) :
+    a.eq ops closeY b = true ↔
+      na = nb ∧ TargetClose closeY a.y b.y ∧ (∀ s, assoc s a.names = assoc s b.names) ∧
+      ∀ s φ, assoc s a.feats = some φ → ∃ ψ, assoc s b.feats = some ψ ∧ FeatClose spec φ ψ := by
+  unfold Frame.eq
+  simp only [Bool.and_eq_true, ha.nr_ok, hb.nr_ok, beq_iff_eq]
+  rw [dictEq_iff ha.nameKeys hb.nameKeys, List.all_eq_true]
+  have hy : Frame.yClose closeY a.y b.y = true ↔ TargetClose closeY a.y b.y := by
+    unfold TargetClose Frame.yClose
+    cases a.y <;> cases b.y <;> simp [all2_iff]
+  rw [hy]
+  have hf : (∀ x ∈ a.feats, Frame.featCloseIn ops b.feats x = true) ↔
+      ∀ s φ, assoc s a.feats = some φ → ∃ ψ, assoc s b.feats = some ψ ∧ FeatClose spec φ ψ := by
+    constructor
+    · intro h s φ hs
+      have hm := assoc_mem hs
+      have := h (s, φ) hm
+      unfold Frame.featCloseIn at this
+      simp only at this
+      cases hψ : assoc s b.feats with
+      | none => simp [hψ] at this
+      | some ψ =>
+        simp only [hψ] at this
+        refine ⟨ψ, rfl, ?_⟩
+        exact (spec.close_iff φ ψ (ha.feat_ok s φ hm).1 (hb.feat_ok s ψ (assoc_mem hψ)).1).mp this
+    · intro h x hx
+      obtain ⟨s, φ⟩ := x
+      obtain ⟨ψ, hψ, hc⟩ := h s φ (assoc_of_mem ha.featKeys hx)
+      unfold Frame.featCloseIn
+      simp only [hψ]
+      exact (spec.close_iff φ ψ (ha.feat_ok s φ hx).1 (hb.feat_ok s ψ (assoc_mem hψ)).1).mpr hc
+  rw [hf]
+  constructor
+  · rintro ⟨⟨⟨h1, h2⟩, h3⟩, h4⟩; exact ⟨h1, h2, h3, h4⟩
+  · rintro ⟨h1, h2, h3, h4⟩; exact ⟨⟨⟨h1, h2⟩, h3⟩, h4⟩
+
+end eq
+
+/-! ### `validate` -/
+
+theorem keysSame_iff (a b : List String) : keysSame a b = true ↔ ∀ s, s ∈ a ↔ s ∈ b := by
+  unfold keysSame
+  simp only [Bool.and_eq_true, List.all_eq_true, List.contains_iff_mem]
+  constructor
+  · rintro ⟨h1, h2⟩ s; exact ⟨h1 s, h2 s⟩
+  · intro h; exact ⟨fun s hs => (h s).mp hs, fun s hs => (h s).mpr hs⟩
+
+section validate
+variable {Φ β κ τ ω : Type} {ops : FeatOps Φ} (spec : FeatSpec ops κ τ ω)
+
+/-- the constructor accepts exactly the frames satisfying the invariant `WF` (given well-formed
+    tensors and Python dicts, whose keys are distinct). -/
+theorem validate_iff_spec {f : Frame Φ β} (hfw : ∀ s φ, (s, φ) ∈ f.feats → spec.wf φ)
+    (hk1 : (keys f.feats).Nodup) (hk2 : (keys f.names).Nodup) :
+    f.validate ops = true ↔ f.WF spec (f.numRows ops) := by
+  constructor
+  · intro h
+    simp only [Frame.validate, Bool.and_eq_true, List.all_eq_true] at h
+    obtain ⟨⟨hks, hfe⟩, hy⟩ := h
+    refine ⟨hk1, hk2, (keysSame_iff _ _).mp hks, ?_, ?_, rfl⟩
+    · intro s φ hm
+      have := hfe (s, φ) hm
+      simp only at this
+      cases hns : assoc s f.names with
+      | none => simp [hns] at this
+      | some ns =>
+        simp only [hns, Bool.and_eq_true, bne_iff_ne, ne_eq] at this
+        obtain ⟨hne, hc⟩ := this
+        obtain ⟨h1, h2⟩ := (spec.check_iff φ _ _ (hfw s φ hm)).mp hc
+        refine ⟨hfw s φ hm, h2, ns, rfl, h1.symm, ?_⟩
+        intro he; subst he; simp at hne
+    · intro y hyv
+      simp only [hyv] at hy
+      simpa using hy
+  · intro h
+    simp only [Frame.validate, Bool.and_eq_true, List.all_eq_true]
+    refine ⟨⟨(keysSame_iff _ _).mpr h.sameKeys, ?_⟩, ?_⟩
+    · intro sφ hm
+      obtain ⟨s, φ⟩ := sφ
+      obtain ⟨hw, hl, ns, hns, hlen, hne⟩ := h.feat_ok s φ hm
+      simp only [hns, Bool.and_eq_true, bne_iff_ne, ne_eq]
+      refine ⟨?_, (spec.check_iff φ _ _ hw).mpr ⟨hlen.symm, hl⟩⟩
+      intro h0
+      exact hne (List.length_eq_zero_iff.mp h0)
+    · cases hyv : f.y with
+      | none => rfl
+      | some y => simp [h.y_ok y hyv]
+
+theorem make_eq_some_iff {feats : List (String × Φ)} {names : List (String × List String)}
+    {y : Option (List β)} {nr : Option Nat} {f : Frame Φ β} :
+    Frame.make ops feats names y nr = some f ↔
+      f = { feats := feats, names := names, y := y, numRowsOpt := nr } ∧ f.validate ops = true := by
+  unfold Frame.make
+  simp only
+  by_cases hv : Frame.validate ops { feats := feats, names := names, y := y, numRowsOpt := nr } = true
+  · simp only [hv, if_true, Option.some.injEq]
+    constructor
+    · intro h; subst h; exact ⟨rfl, hv⟩
+    · rintro ⟨h, _⟩; exact h.symm
+  · simp only [hv]
+    constructor
+    · intro h; cases h
+    · rintro ⟨h, h2⟩; subst h; exact absurd h2 hv
+
+end validate
+
+/-! ### `defaultdict` key order (`_cat_helper`, `_cat_col`) -/
+
+theorem mem_addKeys {acc ks : List String} {k : String} : k ∈ Frame.addKeys acc ks ↔ k ∈ acc ∨ k ∈ ks := by
+  induction ks generalizing acc with
+  | nil => simp [Frame.addKeys]
+  | cons x ks ih =>
+    simp only [Frame.addKeys]
+    cases hx : acc.contains x with
+    | true =>
+      simp only [if_true, ih, List.mem_cons]
+      have : x ∈ acc := List.contains_iff_mem.mp hx
+      constructor
+      · rintro (h | h)
+        · exact Or.inl h
+        · exact Or.inr (Or.inr h)
+      · rintro (h | h | h)
+        · exact Or.inl h
+        · subst h; exact Or.inl this
+        · exact Or.inr h
+    | false =>
+      simp only [Bool.false_eq_true, if_false, ih, List.mem_append, List.mem_cons,
+        List.not_mem_nil, or_false]
+      constructor
+      · rintro ((h | h) | h)
+        · exact Or.inl h
+        · exact Or.inr (Or.inl h)
+        · exact Or.inr (Or.inr h)
+      · rintro (h | h | h)
+        · exact Or.inl (Or.inl h)
+        · exact Or.inl (Or.inr h)
+        · exact Or.inr h
+
+theorem nodup_addKeys {acc ks : List String} (h : acc.Nodup) : (Frame.addKeys acc ks).Nodup := by
+  induction ks generalizing acc with
+  | nil => simpa [Frame.addKeys]
+  | cons x ks ih =>
+    simp only [Frame.addKeys]
+    by_cases hx : acc.contains x = true
+    · simp only [hx, if_true]; exact ih h
+    · simp only [hx]
+      apply ih
+      rw [List.nodup_append]
+      refine ⟨h, by simp, ?_⟩
+      intro a ha b hb
+      simp at hb; subst hb
+      intro hab; subst hab
+      exact hx (List.contains_iff_mem.mpr ha)
+
+theorem addKeys_of_subset {acc ks : List String} (h : ∀ k ∈ ks, k ∈ acc) : Frame.addKeys acc ks = acc := by
+  induction ks with
+  | nil => rfl
+  | cons x ks ih =>
+    have hx : acc.contains x = true := List.contains_iff_mem.mpr (h x (List.mem_cons_self ..))
+    simp only [Frame.addKeys, hx, if_true]
+    exact ih fun k hk => h k (List.mem_cons_of_mem _ hk)
+
+theorem addKeys_of_nodup {acc ks : List String} (h : (acc ++ ks).Nodup) : Frame.addKeys acc ks = acc ++ ks := by
+  induction ks generalizing acc with
+  | nil => simp [Frame.addKeys]
+  | cons x ks ih =>
+    have hx : ¬ acc.contains x = true := by
+      intro hc
+      have hm := List.contains_iff_mem.mp hc
+      rw [List.nodup_append] at h
+      exact h.2.2 x hm x (List.mem_cons_self ..) rfl
+    simp only [Frame.addKeys, hx]
+    have : (acc ++ [x] ++ ks).Nodup := by simpa using h
+    rw [ih this]; simp
+
+theorem foldl_addKeys_mem {ds : List (List String)} {acc : List String} {k : String} :
+    k ∈ ds.foldl Frame.addKeys acc ↔ k ∈ acc ∨ ∃ d ∈ ds, k ∈ d := by
+  induction ds generalizing acc with
+  | nil => simp
+  | cons d ds ih =>
+    simp only [List.foldl_cons, ih, mem_addKeys, List.mem_cons]
+    constructor
+    · rintro ((h | h) | ⟨d', hd', h⟩)
+      · exact Or.inl h
+      · exact Or.inr ⟨d, Or.inl rfl, h⟩
+      · exact Or.inr ⟨d', Or.inr hd', h⟩
+    · rintro (h | ⟨d', hd' | hd', h⟩)
+      · exact Or.inl (Or.inl h)
+      · subst hd'; exact Or.inl (Or.inr h)
+      · exact Or.inr ⟨d', hd', h⟩
+
+theorem mem_keyUnion {ds : List (List String)} {k : String} : k ∈ Frame.keyUnion ds ↔ ∃ d ∈ ds, k ∈ d := by
+  unfold Frame.keyUnion
+  rw [foldl_addKeys_mem]; simp
+
+theorem foldl_addKeys_nodup {ds : List (List String)} {acc : List String} (h : acc.Nodup) :
+    (ds.foldl Frame.addKeys acc).Nodup := by
+  induction ds generalizing acc with
+  | nil => simpa
+  | cons d ds ih => exact ih (nodup_addKeys h)
+
+theorem nodup_keyUnion (ds : List (List String)) : (Frame.keyUnion ds).Nodup :=
+  foldl_addKeys_nodup List.nodup_nil
+
+theorem foldl_addKeys_same {ds : List (List String)} {acc : List String} (h : ∀ d ∈ ds, ∀ k ∈ d, k ∈ acc) :
+    ds.foldl Frame.addKeys acc = acc := by
+  induction ds with
+  | nil => rfl
+  | cons d ds ih =>
+    simp only [List.foldl_cons]
+    rw [addKeys_of_subset (h d (List.mem_cons_self ..))]
+    exact ih fun d' hd' => h d' (List.mem_cons_of_mem _ hd')
+
+/-- when every later part has the keys of the first one, the `defaultdict` has exactly the first
+    part's keys in its order. -/
+theorem keyUnion_same {d : List String} {ds : List (List String)} (hd : d.Nodup)
+    (h : ∀ d' ∈ ds, ∀ k ∈ d', k ∈ d) : Frame.keyUnion (d :: ds) = d := by
+  unfold Frame.keyUnion
+  simp only [List.foldl_cons]
+  rw [addKeys_of_nodup (by simpa using hd), List.nil_append]
+  exact foldl_addKeys_same h
+
+/-! ### `_cat_helper` -/
+
+theorem catHelper_eq_some {Φ β : Type} {cat : List Φ → Option Φ} {fs : List (Frame Φ β)} {feats : List (String × Φ)}
+    (h : Frame.catHelper cat fs = some feats) :
+    keys feats = Frame.keyUnion (fs.map fun f => keys f.feats) ∧
+      ∀ s φ, (s, φ) ∈ feats → cat (fs.filterMap fun f => assoc s f.feats) = some φ := by
+  unfold Frame.catHelper at h
+  rw [mapOpt_eq_some_iff] at h
+  generalize Frame.keyUnion (fs.map fun f => keys f.feats) = K at h
+  induction K generalizing feats with
+  | nil => cases feats <;> simp_all [All2, keys]
+  | cons k K ih =>
+    cases feats with
+    | nil => simp [All2] at h
+    | cons a feats =>
+      simp only [All2] at h
+      obtain ⟨h1, h2⟩ := h
+      obtain ⟨ih1, ih2⟩ := ih h2
+      cases hc : cat (fs.filterMap fun f => assoc k f.feats) with
+      | none => simp [hc] at h1
+      | some φ =>
+        simp [hc] at h1
+        subst h1
+        refine ⟨by simp [keys] at ih1 ⊢; exact ih1, ?_⟩
+        intro s φ' hm
+        rcases List.mem_cons.mp hm with hm | hm
+        · cases hm; exact hc
+        · exact ih2 s φ' hm
+
+theorem catHelper_some_of {Φ β : Type} {cat : List Φ → Option Φ} {fs : List (Frame Φ β)}
+    (h : ∀ s ∈ Frame.keyUnion (fs.map fun f => keys f.feats),
+      ∃ φ, cat (fs.filterMap fun f => assoc s f.feats) = some φ) :
+    ∃ feats, Frame.catHelper cat fs = some feats := by
+  unfold Frame.catHelper
+  apply mapOpt_some_of_forall
+  intro s hs
+  obtain ⟨φ, hφ⟩ := h s hs
+  exact ⟨(s, φ), by simp [hφ]⟩
+
+/-! ### `_cat_row` -/
+
+section catRow
+variable {Φ β κ τ ω : Type} {ops : FeatOps Φ} (spec : FeatSpec ops κ τ ω)
+
+theorem filterMap_flatMap_length {fs : List (Frame Φ β)} {s : String} {g : Φ → List γ}
+    (h : ∀ f ∈ fs, ∃ φ, assoc s f.feats = some φ ∧ (g φ).length = f.numRows ops) :
+    ((fs.filterMap fun f => assoc s f.feats).flatMap g).length = (fs.map (·.numRows ops)).sum := by
+  induction fs with
+  | nil => rfl
+  | cons f fs ih =>
+    obtain ⟨φ, hφ, hl⟩ := h f (List.mem_cons_self ..)
+    rw [List.filterMap_cons, hφ]
+    simp only [List.flatMap_cons, List.length_append, List.map_cons, List.sum_cons, hl]
+    rw [ih fun f' hf' => h f' (List.mem_cons_of_mem _ hf')]
+
+theorem flatMap_getD_length {fs : List (Frame Φ β)} (h : ∀ f ∈ fs, ∀ y, f.y = some y → y.length = f.numRows ops)
+    (hs : ∀ f ∈ fs, f.y.isSome = true) :
+    (fs.flatMap fun f => f.y.getD []).length = (fs.map (·.numRows ops)).sum := by
+  induction fs with
+  | nil => rfl
+  | cons f fs ih =>
+    have hsome := hs f (List.mem_cons_self ..)
+    cases hy : f.y with
+    | none => simp [hy] at hsome
+    | some y =>
+      simp only [List.flatMap_cons, List.length_append, List.map_cons, List.sum_cons, hy, Option.getD_some,
+        h f (List.mem_cons_self ..) y hy]
+      rw [ih (fun f' hf' => h f' (List.mem_cons_of_mem _ hf')) (fun f' hf' => hs f' (List.mem_cons_of_mem _ hf'))]
+
+/-- Row concatenation of parts that share the schema of the first part (same name table, same
+    feature keys, same target presence, compatible shapes): it succeeds and every feature of the
+    result holds the rows of the parts in order; so does the target. -/
+theorem catRow_spec {f0 : Frame Φ β} {rest : List (Frame Φ β)}
+    (hwf : ∀ f ∈ f0 :: rest, f.WF spec (f.numRows ops))
+    (hne : f0.feats ≠ [])
+    (hnames : ∀ f ∈ rest, f.names = f0.names)
+    (hkeys : ∀ f ∈ rest, keys f.feats = keys f0.feats)
+    (hy : ∀ f ∈ rest, f.y.isSome = f0.y.isSome)
+    (hcompat : ∀ f ∈ rest, ∀ s φ φ0, assoc s f.feats = some φ → assoc s f0.feats = some φ0 →
+      spec.tag φ = spec.tag φ0 ∧ spec.colMeta φ = spec.colMeta φ0) :
+    ∃ g, Frame.catRow ops (f0 :: rest) = some g ∧
+      g.WF spec ((f0 :: rest).map (·.numRows ops)).sum ∧ g.names = f0.names ∧
+      keys g.feats = keys f0.feats ∧
+      (∀ s φ0, assoc s f0.feats = some φ0 → ∃ φ', assoc s g.feats = some φ' ∧
+        spec.grid φ' = ((f0 :: rest).filterMap fun f => assoc s f.feats).flatMap spec.grid ∧
+        spec.tag φ' = spec.tag φ0 ∧ spec.colMeta φ' = spec.colMeta φ0) ∧
+      g.y = if f0.y.isSome then some ((f0 :: rest).flatMap fun f => f.y.getD []) else none := by
+  have hwf0 := hwf f0 (List.mem_cons_self ..)
+  have hK : Frame.keyUnion ((f0 :: rest).map fun f => keys f.feats) = keys f0.feats := by
+    simp only [List.map_cons]
+    apply keyUnion_same hwf0.featKeys
+    intro d hd k hk
+    obtain ⟨f, hf, rfl⟩ := List.mem_map.mp hd
+    rw [hkeys f hf] at hk; exact hk
+  -- every part has every feature group of the first part
+  have hhas : ∀ s φ0, assoc s f0.feats = some φ0 → ∀ f ∈ f0 :: rest, ∃ φ, assoc s f.feats = some φ ∧
+      spec.wf φ ∧ spec.tag φ = spec.tag φ0 ∧ spec.colMeta φ = spec.colMeta φ0 ∧
+      (spec.grid φ).length = f.numRows ops := by
+    intro s φ0 hs f hf
+    rcases List.mem_cons.mp hf with hf | hf
+    · subst hf
+      obtain ⟨hw, hl, _⟩ := hwf0.feat_ok s φ0 (assoc_mem hs)
+      exact ⟨φ0, hs, hw, rfl, rfl, by rw [spec.grid_len φ0 hw, hl]⟩
+    · have hk : s ∈ keys f.feats := by rw [hkeys f hf]; exact assoc_isSome_iff.mp ⟨φ0, hs⟩
+      obtain ⟨φ, hφ⟩ := assoc_isSome_iff.mpr hk
+      obtain ⟨hw, hl, _⟩ := (hwf f (List.mem_cons_of_mem _ hf)).feat_ok s φ (assoc_mem hφ)
+      obtain ⟨ht, hc⟩ := hcompat f hf s φ φ0 hφ hs
+      exact ⟨φ, hφ, hw, ht, hc, by rw [spec.grid_len φ hw, hl]⟩
+  -- the concatenated feature of every group
+  have hcat : ∀ s φ0, assoc s f0.feats = some φ0 →
+      ∃ φ', ops.catRows ((f0 :: rest).filterMap fun f => assoc s f.feats) = some φ' ∧ spec.wf φ' ∧
+        spec.tag φ' = spec.tag φ0 ∧ spec.colMeta φ' = spec.colMeta φ0 ∧
+        spec.grid φ' = ((f0 :: rest).filterMap fun f => assoc s f.feats).flatMap spec.grid := by
+    intro s φ0 hs
+    have hfm : ((f0 :: rest).filterMap fun f => assoc s f.feats) =
+        φ0 :: (rest.filterMap fun f => assoc s f.feats) := by
+      rw [List.filterMap_cons, hs]
+    have hall : ∀ φ ∈ φ0 :: (rest.filterMap fun f => assoc s f.feats),
+        spec.wf φ ∧ spec.tag φ = spec.tag φ0 ∧ spec.colMeta φ = spec.colMeta φ0 := by
+      intro φ hφ
+      rw [← hfm, List.mem_filterMap] at hφ
+      obtain ⟨f, hf, hfφ⟩ := hφ
+      obtain ⟨φ1, h1, hw, ht, hc, _⟩ := hhas s φ0 hs f hf
+      rw [hfφ] at h1; cases h1
+      exact ⟨hw, ht, hc⟩
+    obtain ⟨φ', h1, h2, h3, h4, h5⟩ := spec.catRows_spec φ0 _ hall
+    rw [hfm]
+    exact ⟨φ', h1, h2, h3, h4, h5⟩
+  obtain ⟨feats, hfeats⟩ : ∃ feats, Frame.catHelper ops.catRows (f0 :: rest) = some feats := by
+    apply catHelper_some_of
+    intro s hs
+    rw [hK] at hs
+    obtain ⟨φ0, hφ0⟩ := assoc_isSome_iff.mpr hs
+    obtain ⟨φ', h1, _⟩ := hcat s φ0 hφ0
+    exact ⟨φ', h1⟩
+  obtain ⟨hfk, hfm⟩ := catHelper_eq_some hfeats
+  rw [hK] at hfk
+  let N := ((f0 :: rest).map (·.numRows ops)).sum
+  let y' : Option (List β) := if f0.y.isSome then some ((f0 :: rest).flatMap fun f => f.y.getD []) else none
+  let g : Frame Φ β := { feats := feats, names := f0.names, y := y', numRowsOpt := none }
+  have hfn : (keys feats).Nodup := by rw [hfk]; exact hwf0.featKeys
+  -- facts about each feature of the result
+  have hres : ∀ s φ', (s, φ') ∈ feats → ∃ φ0, assoc s f0.feats = some φ0 ∧ spec.wf φ' ∧
+      spec.tag φ' = spec.tag φ0 ∧ spec.colMeta φ' = spec.colMeta φ0 ∧
+      spec.grid φ' = ((f0 :: rest).filterMap fun f => assoc s f.feats).flatMap spec.grid ∧ ops.len φ' = N := by
+    intro s φ' hm
+    have hk : s ∈ keys f0.feats := by rw [← hfk]; exact List.mem_map.mpr ⟨(s, φ'), hm, rfl⟩
+    obtain ⟨φ0, hφ0⟩ := assoc_isSome_iff.mpr hk
+    obtain ⟨φ'', h1, h2, h3, h4, h5⟩ := hcat s φ0 hφ0
+    rw [hfm s φ' hm] at h1; cases h1
+    refine ⟨φ0, hφ0, h2, h3, h4, h5, ?_⟩
+    rw [← spec.grid_len φ' h2, h5]
+    exact filterMap_flatMap_length (fun f hf => by
+      obtain ⟨φ, hφ, _, _, _, hl⟩ := hhas s φ0 hφ0 f hf
+      exact ⟨φ, hφ, hl⟩)
+  have hgN : g.numRows ops = N := by
+    show Frame.numRows ops g = N
+    unfold Frame.numRows
+    simp only [g]
+    cases hf : feats with
+    | nil =>
+      exfalso
+      have : keys f0.feats = [] := by rw [← hfk, hf]; rfl
+      cases hf0 : f0.feats with
+      | nil => exact hne hf0
+      | cons a t => rw [hf0] at this; simp [keys] at this
+    | cons a t =>
+      obtain ⟨s, φ'⟩ := a
+      simp only
+      obtain ⟨_, _, _, _, _, _, hl⟩ := hres s φ' (by rw [hf]; exact List.mem_cons_self ..)
+      exact hl
+  have hgwf : g.WF spec N := by
+    refine ⟨hfn, hwf0.nameKeys, ?_, ?_, ?_, hgN⟩
+    · intro s
+      show s ∈ keys feats ↔ s ∈ keys f0.names
+      rw [hfk]; exact hwf0.sameKeys s
+    · intro s φ' hm
+      obtain ⟨φ0, hφ0, hw, _, hc, _, hl⟩ := hres s φ' hm
+      obtain ⟨_, _, ns, hns, hlen, hnn⟩ := hwf0.feat_ok s φ0 (assoc_mem hφ0)
+      exact ⟨hw, hl, ns, hns, by rw [hc]; exact hlen, hnn⟩
+    · intro y hyv
+      change y' = some y at hyv
+      simp only [y'] at hyv
+      cases h0 : f0.y.isSome with
+      | false => simp [h0] at hyv
+      | true =>
+        simp only [h0, if_true, Option.some.injEq] at hyv
+        subst hyv
+        show _ = ((f0 :: rest).map (·.numRows ops)).sum
+        apply flatMap_getD_length
+        · intro f hf y hy; exact (hwf f hf).y_ok y hy
+        · intro f hf
+          rcases List.mem_cons.mp hf with hf | hf
+          · subst hf; exact h0
+          · rw [hy f hf]; exact h0
+  refine ⟨g, ?_, hgwf, rfl, hfk, ?_, rfl⟩
+  · unfold Frame.catRow
+    have h1 : rest.any (fun f => !dictEq f.names f0.names) = false := by
+      rw [List.any_eq_false]
+      intro f hf
+      rw [hnames f hf, dictEq_refl hwf0.nameKeys]; simp
+    have h2 : (f0 :: rest).any (fun f => f.y.isSome != f0.y.isSome) = false := by
+      rw [List.any_eq_false]
+      intro f hf
+      rcases List.mem_cons.mp hf with hf | hf
+      · subst hf; simp
+      · rw [hy f hf]; simp
+    simp only [h1, h2, Bool.false_eq_true, if_false, hfeats]
+    rw [make_eq_some_iff]
+    refine ⟨rfl, ?_⟩
+    have := (validate_iff_spec spec (f := g) (fun s φ hm => (hgwf.feat_ok s φ hm).1) hfn hwf0.nameKeys).mpr
+      (by rw [hgN]; exact hgwf)
+    exact this
+  · intro s φ0 hφ0
+    have hk : s ∈ keys feats := by rw [hfk]; exact assoc_isSome_iff.mp ⟨φ0, hφ0⟩
+    obtain ⟨φ', hφ'⟩ := assoc_isSome_iff.mpr hk
+    obtain ⟨φ1, h1, _, ht, hc, hg, _⟩ := hres s φ' (assoc_mem hφ')
+    rw [hφ0] at h1; cases h1
+    exact ⟨φ', hφ', hg, ht, hc⟩
+
+/-- `p` holds exactly the rows `ps` of `f` (same columns, same shapes). -/
+def IsSel (f : Frame Φ β) (ps : List Nat) (p : Frame Φ β) : Prop :=
+  p.WF spec ps.length ∧ p.names = f.names ∧ keys p.feats = keys f.feats ∧
+  (∀ s φ, assoc s f.feats = some φ → ∃ φ', assoc s p.feats = some φ' ∧
+    spec.grid φ' = Grid.pick (spec.grid φ) ps ∧ spec.tag φ' = spec.tag φ ∧
+    spec.colMeta φ' = spec.colMeta φ) ∧
+  p.y = f.y.map (Grid.pick · ps)
+
+/-- any list of admissible selections of one frame yields parts that are those selections. -/
+theorem parts_of_selections {f : Frame Φ β} {n : Nat} (hwf : f.WF spec n) {ixs : List Index}
+    {pss : List (List Nat)} (h : All2 (fun ix ps => ix.positions n = some ps) ixs pss) :
+    ∃ parts, mapOpt (f.getitem ops) ixs = some parts ∧ All2 (IsSel spec f) pss parts := by
+  induction ixs generalizing pss with
+  | nil => cases pss with
+    | nil => exact ⟨[], rfl, trivial⟩
+    | cons ps pss => simp [All2] at h
+  | cons ix ixs ih =>
+    cases pss with
+    | nil => simp [All2] at h
+    | cons ps pss =>
+      simp only [All2] at h
+      obtain ⟨p, hp, h1, h2, h3, h4, h5⟩ := getitem_spec spec hwf h.1
+      obtain ⟨parts, hparts, hall⟩ := ih h.2
+      refine ⟨p :: parts, by simp [mapOpt, hp, hparts], ⟨h1, h2, h3, ?_, h5⟩, hall⟩
+      intro s φ hs
+      obtain ⟨φ', a, _, b, c, d⟩ := h4 s φ hs
+      exact ⟨φ', a, b, c, d⟩
+
+theorem sel_grids {f : Frame Φ β} {pss : List (List Nat)} {parts : List (Frame Φ β)}
+    (h : All2 (IsSel spec f) pss parts) {s : String} {φ : Φ} (hs : assoc s f.feats = some φ) :
+    (parts.filterMap fun p => assoc s p.feats).flatMap spec.grid = pss.flatMap (Grid.pick (spec.grid φ)) := by
+  induction pss generalizing parts with
+  | nil => cases parts <;> simp_all [All2]
+  | cons ps pss ih =>
+    cases parts with
+    | nil => simp [All2] at h
+    | cons p parts =>
+      simp only [All2] at h
+      obtain ⟨φ', h1, h2, _⟩ := h.1.2.2.2.1 s φ hs
+      rw [List.filterMap_cons, h1]
+      simp only [List.flatMap_cons, h2, ih h.2]
+
+theorem sel_targets {f : Frame Φ β} {pss : List (List Nat)} {parts : List (Frame Φ β)}
+    (h : All2 (IsSel spec f) pss parts) {y : List β} (hy : f.y = some y) :
+    (parts.flatMap fun p => p.y.getD []) = pss.flatMap (Grid.pick y) := by
+  induction pss generalizing parts with
+  | nil => cases parts <;> simp_all [All2]
+  | cons ps pss ih =>
+    cases parts with
+    | nil => simp [All2] at h
+    | cons p parts =>
+      simp only [All2] at h
+      have := h.1.2.2.2.2
+      rw [hy] at this
+      simp only [List.flatMap_cons, this, Option.map_some, Option.getD_some, ih h.2]
+
+theorem sel_rows_sum {f : Frame Φ β} {pss : List (List Nat)} {parts : List (Frame Φ β)}
+    (h : All2 (IsSel spec f) pss parts) : (parts.map (·.numRows ops)).sum = pss.flatten.length := by
+  induction pss generalizing parts with
+  | nil => cases parts <;> simp_all [All2]
+  | cons ps pss ih =>
+    cases parts with
+    | nil => simp [All2] at h
+    | cons p parts =>
+      simp only [All2] at h
+      simp only [List.map_cons, List.sum_cons, List.flatten_cons, List.length_append, ih h.2, h.1.1.nr_ok]
+
+theorem All2.of_mem_right {R : α → γ → Prop} {xs : List α} {ys : List γ} (h : All2 R xs ys) {y : γ} (hy : y ∈ ys) :
+    ∃ x ∈ xs, R x y := by
+  induction xs generalizing ys with
+  | nil => cases ys <;> simp_all [All2]
+  | cons x xs ih =>
+    cases ys with
+    | nil => simp at hy
+    | cons y' ys =>
+      simp only [All2] at h
+      rcases List.mem_cons.mp hy with hy | hy
+      · subst hy; exact ⟨x, List.mem_cons_self .., h.1⟩
+      · obtain ⟨x', hx', hr⟩ := ih h.2 hy
+        exact ⟨x', List.mem_cons_of_mem _ hx', hr⟩
+
+/-- Row concatenation of selections of one frame is the selection of the concatenated positions:
+    `cat([f[ix1], ..., f[ixk]], dim=0)` holds the rows `ps1 ++ ... ++ psk` of `f`. -/
+theorem catRow_of_sel {f : Frame Φ β} (hne : f.feats ≠ []) {ps0 : List Nat} {pss : List (List Nat)}
+    {p0 : Frame Φ β} {parts : List (Frame Φ β)} (h : All2 (IsSel spec f) (ps0 :: pss) (p0 :: parts)) :
+    ∃ g, Frame.catRow ops (p0 :: parts) = some g ∧ IsSel spec f (ps0 :: pss).flatten g := by
+  have h0 : IsSel spec f ps0 p0 := h.1
+  have hall : ∀ p ∈ p0 :: parts, ∃ ps, IsSel spec f ps p := by
+    intro p hp
+    obtain ⟨ps, _, hps⟩ := All2.of_mem_right h hp
+    exact ⟨ps, hps⟩
+  have hcs := catRow_spec spec (f0 := p0) (rest := parts)
+    (by
+      intro p hp
+      obtain ⟨ps, hps⟩ := hall p hp
+      have := hps.1
+      rw [← this.nr_ok] at this; exact this)
+    (by
+      intro he
+      have := h0.2.2.1
+      rw [he] at this
+      cases hf : f.feats with
+      | nil => exact hne hf
+      | cons a t => rw [hf] at this; simp [keys] at this)
+    (by
+      intro p hp
+      obtain ⟨ps, hps⟩ := hall p (List.mem_cons_of_mem _ hp)
+      rw [hps.2.1, h0.2.1])
+    (by
+      intro p hp
+      obtain ⟨ps, hps⟩ := hall p (List.mem_cons_of_mem _ hp)
+      rw [hps.2.2.1, h0.2.2.1])
+    (by
+      intro p hp
+      obtain ⟨ps, hps⟩ := hall p (List.mem_cons_of_mem _ hp)
+      rw [hps.2.2.2.2, h0.2.2.2.2]
+      cases f.y <;> rfl)
+    (by
+      intro p hp s φ φ0 hφ hφ0
+      obtain ⟨ps, hps⟩ := hall p (List.mem_cons_of_mem _ hp)
+      have hk : s ∈ keys f.feats := by rw [← h0.2.2.1]; exact assoc_isSome_iff.mp ⟨φ0, hφ0⟩
+      obtain ⟨ψ, hψ⟩ := assoc_isSome_iff.mpr hk
+      obtain ⟨a, ha, _, hta, hca⟩ := hps.2.2.2.1 s ψ hψ
+      obtain ⟨b, hb, _, htb, hcb⟩ := h0.2.2.2.1 s ψ hψ
+      rw [hφ] at ha; cases ha
+      rw [hφ0] at hb; cases hb
+      exact ⟨by rw [hta, htb], by rw [hca, hcb]⟩)
+  obtain ⟨g, hg, hgwf, hgn, hgk, hgg, hgy⟩ := hcs
+  refine ⟨g, hg, ?_, by rw [hgn, h0.2.1], by rw [hgk, h0.2.2.1], ?_, ?_⟩
+  · rw [sel_rows_sum spec h] at hgwf; exact hgwf
+  · intro s φ hs
+    obtain ⟨φ0, hφ0, _, ht0, hc0⟩ := h0.2.2.2.1 s φ hs
+    obtain ⟨φ', hφ', hgr, ht, hc⟩ := hgg s φ0 hφ0
+    refine ⟨φ', hφ', ?_, by rw [ht, ht0], by rw [hc, hc0]⟩
+    rw [hgr, sel_grids spec h hs, pick_flatten]
+  · rw [hgy, h0.2.2.2.2]
+    cases hy : f.y with
+    | none => rfl
+    | some y =>
+      simp only [Option.map_some, Option.isSome_some, if_true]
+      rw [sel_targets spec h hy, pick_flatten]
+
+/-- same columns, same shapes, same cells, same target. -/
+def SameContent (g f : Frame Φ β) : Prop :=
+  g.names = f.names ∧ keys g.feats = keys f.feats ∧ g.y = f.y ∧
+  ∀ s φ, assoc s f.feats = some φ → ∃ φ', assoc s g.feats = some φ' ∧
+    spec.grid φ' = spec.grid φ ∧ spec.tag φ' = spec.tag φ ∧ spec.colMeta φ' = spec.colMeta φ
+
+theorem IsSel.sameContent {f g : Frame Φ β} {n : Nat} (hwf : f.WF spec n) (h : IsSel spec f (List.range n) g) :
+    g.WF spec n ∧ SameContent spec g f := by
+  obtain ⟨h1, h2, h3, h4, h5⟩ := h
+  refine ⟨by simpa using h1, h2, h3, ?_, ?_⟩
+  · rw [h5]
+    cases hy : f.y with
+    | none => rfl
+    | some y => simp [pick_range_of_length y n (hwf.y_ok y hy)]
+  · intro s φ hs
+    obtain ⟨φ', a, b, c, d⟩ := h4 s φ hs
+    obtain ⟨hw, hl, _⟩ := hwf.feat_ok s φ (assoc_mem hs)
+    exact ⟨φ', a, by rw [b, pick_range_of_length _ n (by rw [spec.grid_len φ hw, hl])], c, d⟩
+
+/-- frames with the same content compare equal, in both directions, under any reflexive `close`. -/
+theorem eq_of_sameContent (closeY : β → β → Bool) (hcy : ∀ v, closeY v v = true)
+    (hcc : ∀ c, spec.cellClose c c) {g f : Frame Φ β} {n : Nat} (hg : g.WF spec n) (hf : f.WF spec n)
+    (h : SameContent spec g f) : g.eq ops closeY f = true ∧ f.eq ops closeY g = true := by
+  obtain ⟨hn, hk, hy, hc⟩ := h
+  have hT : ∀ y : Option (List β), TargetClose closeY y y := by
+    intro y
+    cases y with
+    | none => trivial
+    | some y => exact All2.refl hcy y
+  constructor
+  · rw [eq_iff_spec spec closeY hg hf]
+    refine ⟨rfl, by rw [hy]; exact hT _, by intro s; rw [hn], ?_⟩
+    intro s φ' hs
+    have hks : s ∈ keys f.feats := by rw [← hk]; exact assoc_isSome_iff.mp ⟨φ', hs⟩
+    obtain ⟨φ, hφ⟩ := assoc_isSome_iff.mpr hks
+    obtain ⟨φ'', a, b, c, d⟩ := hc s φ hφ
+    rw [hs] at a; cases a
+    exact ⟨φ, hφ, c, d, by rw [b]; exact All2.refl (fun r => All2.refl hcc r) _⟩
+  · rw [eq_iff_spec spec closeY hf hg]
+    refine ⟨rfl, by rw [hy]; exact hT _, by intro s; rw [hn], ?_⟩
+    intro s φ hs
+    obtain ⟨φ', a, b, c, d⟩ := hc s φ hs
+    exact ⟨φ', a, c.symm, d.symm, by rw [b]; exact All2.refl (fun r => All2.refl hcc r) _⟩
+
+end catRow
 
 end TFVerif.TF
